@@ -34,7 +34,9 @@ def dataframe_to_symbols(table: 'pandas.DataFrame') -> List[Symbol]:  # noqa: F8
 
     def convert_to_int_or_none(field: Any) -> Optional[int]:
         """Convert NaNs to `None`; `int` otherwise."""
-        if field is None or np.isnan(field):
+        # NB `np.isnan()` cannot take a Python `int` outside the 64-bit range
+        #    (the cells of an `object` column), so test floats only
+        if field is None or (isinstance(field, float) and np.isnan(field)):
             return None
         return int(field)
 
